@@ -341,16 +341,21 @@ func (s *BaseNodeService) verifyMessage(fsmInstance *state_machines.FSMInstance,
 	}
 
 	// a request can speak only for the participant who signed the message
-	// (decoded like the typed requests: an absent or null ParticipantId means participant 0)
-	var claim struct{ ParticipantId int }
+	// (the typed requests decode an absent or null ParticipantId as participant 0: every genuine
+	// request carries the field, so one without it is another kind of message under a borrowed
+	// event name, e.g. participant 0's own opening proposal re-posted as its decline)
+	var claim struct{ ParticipantId *int }
 	if err := json.Unmarshal(message.Data, &claim); err == nil {
+		if claim.ParticipantId == nil {
+			return fmt.Errorf("message from %s names no participant", message.SenderAddr)
+		}
 		senderID, err := fsmInstance.GetIDByUsername(message.SenderAddr)
 		if err != nil {
 			return fmt.Errorf("failed to GetIDByUsername: %w", err)
 		}
-		if senderID != claim.ParticipantId {
+		if senderID != *claim.ParticipantId {
 			return fmt.Errorf("message from %s (participant %d) claims to be from participant %d",
-				message.SenderAddr, senderID, claim.ParticipantId)
+				message.SenderAddr, senderID, *claim.ParticipantId)
 		}
 	}
 
